@@ -171,6 +171,10 @@ func nameKeyedSetOverInline(w *World, r *Report, prop string, inScope func(fn *s
 			owner := recvNamedCore(fn)
 			if owner == "" {
 				owner = ownerPkgName(fn)
+				// a shared helper of the generators: the finding belongs to the generators that use it
+				if gs := generatorsReaching(w, fn); len(gs) > 0 && !parsePhaseSet(w)[fn] {
+					owner = strings.Join(gs, "+")
+				}
 			}
 			key := fmt.Sprintf("%s: a set keyed by a packet's name sees declared packets only", owner)
 			if seenKey[key] {
@@ -1269,20 +1273,27 @@ func matchTableReadFromTheField(w *World, r *Report, prop string, inScope func(f
 				}
 			}
 		})
-		owner := recvNamedCore(fn)
-		if owner == "" {
-			owner = ownerPkgName(fn)
-		}
-		key := owner + ": the pairs of a match field are not taken from the per-key index Packet.MatchFields"
 		if at == nil {
 			continue
 		}
-		if seen[key] {
-			continue
+		owners := []string{recvNamedCore(fn)}
+		if owners[0] == "" {
+			// a shared helper: the finding belongs to the generators that use it (a known defect moved into a helper is the same defect)
+			if gs := generatorsReaching(w, fn); len(gs) > 0 && !parsePhaseSet(w)[fn] {
+				owners = gs
+			} else {
+				owners = []string{ownerPkgName(fn)}
+			}
 		}
-		seen[key] = true
-		n++
-		r.fail(rule, key, w.instrPos(at), why+" ("+fnKey(fn)+" uses a pair list looked up in Packet.MatchFields, which keeps one list per key field - the last one)")
+		for _, owner := range owners {
+			key := owner + ": the pairs of a match field are not taken from the per-key index Packet.MatchFields"
+			if seen[key] {
+				continue
+			}
+			seen[key] = true
+			n++
+			r.fail(rule, key, w.instrPos(at), why+" ("+fnKey(fn)+" uses a pair list looked up in Packet.MatchFields, which keeps one list per key field - the last one)")
+		}
 	}
 	if n == 0 {
 		r.pass(rule, "no routine takes a pair list out of the per-key index", "", "")
@@ -1294,4 +1305,36 @@ func ownerPkgName(fn *ssa.Function) string {
 		return p.Pkg.Name()
 	}
 	return "repo"
+}
+
+// generatorsReaching: the generator types from whose Generate method fn is reachable (sorted); for a method of a generator, that type.
+func generatorsReaching(w *World, fn *ssa.Function) []string {
+	if rn := recvNamedCore(fn); strings.HasSuffix(rn, "Generator") {
+		return []string{rn}
+	}
+	gens, err := w.generateFuncs()
+	if err != nil {
+		return nil
+	}
+	var out []string
+	for _, g := range generators {
+		root := gens[g.Lang]
+		if root == nil {
+			continue
+		}
+		reach := w.reachable([]*ssa.Function{root}, func(f *ssa.Function) bool { return w.isRepoLike(f) })
+		if reach[fn] {
+			out = append(out, g.Type)
+		}
+	}
+	sort.Strings(out)
+	return out
+}
+
+func parsePhaseSet(w *World) map[*ssa.Function]bool {
+	out := map[*ssa.Function]bool{}
+	for _, f := range parsePhaseFuncs(w) {
+		out[f] = true
+	}
+	return out
 }
